@@ -9,7 +9,7 @@ from ..idx import index
 from ..px import OK, PX, RAISE, Outcomes
 from ..pxv import Obj, Sym
 from ..te import ClassRef, FuncRef, Member, TypeRef
-from .util import const, fut, self_obj, text, who_may_call
+from .util import const, fut, same_class, self_obj, text, who_may_call
 
 PROTO = "bellows.ezsp.protocol"
 VERSIONS = list(range(4, 15))
@@ -188,11 +188,9 @@ def r06_4(ctx):
                 ok = True
         ctx.require(ok, f"semaphore-use:{g.short}", f"send semaphore used in {g.short} line {nnode.lineno} other than `async with` in command()",
                     func=g, node=nnode)
-    ws = index(repo).writers("_seq")
-    for g, nnode, kind in ws:
-        if g.mod.startswith("bellows.ezsp"):
-            ctx.require(g.short in ("ProtocolHandler.__init__", "ProtocolHandler.command"), f"_seq:writer:{g.short}",
-                        f"request sequence number written in {g.short}", func=g, node=nnode)
+    from .ash_link import confined_writers
+
+    confined_writers(ctx, "_seq", {q for q in px.visited}, {"ProtocolHandler.__init__"}, "R06.1/R06.4 (command)")
 
 
 KEEPALIVE = ("nop", "readCounters", "readAndClearCounters")
@@ -272,6 +270,7 @@ def r06_7(ctx):
     repo = ctx.repo
     f = repo.func(f"{PROTO}:ProtocolHandler.__call__")
     ctx.fn(f)
+    visited_call = set()
     for v in (4, 8, 14):
         fields = init_handler(ctx, v)
         by_id = fields.get("COMMANDS_BY_ID")
@@ -300,12 +299,12 @@ def r06_7(ctx):
                         models = [("self._ezsp_frame_rx", lambda px, t, a, k, fr: (5, fid, Sym("payload"))),
                                   ("t.deserialize_dict", Outcomes(OK(({"f0": Sym("v0"), "f1": Sym("v1")}, Sym("rest")))) if decode_ok
                                    else Outcomes(RAISE("ValueError"))),
-                                  ("rx_schema.deserialize", Outcomes(OK((Sym("structval"), Sym("rest")))) if decode_ok
+                                  ("*.deserialize", Outcomes(OK((Sym("structval"), Sym("rest")))) if decode_ok
                                    else Outcomes(RAISE("ValueError"))),
                                   ("*.set_result", Outcomes(RAISE("InvalidStateError")) if done else Outcomes(OK(None))),
                                   ("*.set_exception", Outcomes(RAISE("InvalidStateError")) if done else Outcomes(OK(None))),
                                   ("binascii.hexlify", lambda px, t, a, k, fr: "hex")]
-                        px = PX(repo, models=models, inline=lambda g, aw: False,
+                        px = PX(repo, models=models, inline=same_class(),
                                 facts={"rest": False, "(5 in keys({5}))": True})
                         exp_entry = (cmds[expected][0], cmds[expected][2], fut("pending_future"))
 
@@ -319,7 +318,8 @@ def r06_7(ctx):
                         for p in paths:
                             scen = f"v{v}:{kind},pending={pending},decode={'ok' if decode_ok else 'raises'},done={done}"
                             calls = [e for e in p.events if e.kind == "call"]
-                            dec = [e for e in calls if e.what in ("t.deserialize_dict", "rx_schema.deserialize")]
+                            dec = [e for e in calls if e.what == "t.deserialize_dict" or e.what.endswith(".deserialize")]
+                            visited_call.update(px.visited)
                             sr = [e for e in calls if e.what.endswith(".set_result")]
                             sx = [e for e in calls if e.what.endswith(".set_exception")]
                             cb = [e for e in calls if e.what == "self._handle_callback"]
@@ -363,10 +363,10 @@ def r06_7(ctx):
                                               func=f, trace=p.trace(30), construct=scen)
                             else:
                                 ctx.ok(1, scen)
-    ws = index(repo).writers("_awaiting")
-    for g, n, kind in ws:
-        ctx.require(g.short in ("ProtocolHandler.__init__", "ProtocolHandler.command", "ProtocolHandler.__call__"),
-                    f"_awaiting:writer:{g.short}", f"pending table modified in {g.short} ({kind})", func=g, node=n)
+    from .ash_link import confined_writers
+
+    g_, pxc, _paths = explore_command(ctx, 8, 1, "nop")
+    confined_writers(ctx, "_awaiting", visited_call | pxc.visited, {"ProtocolHandler.__init__"}, "R06.1 (command) / R06.7 (__call__)")
 
 
 @rule("R06.8", ["C06", "C08", "C10"], "T-FUN", floor=4)
@@ -692,11 +692,16 @@ def r08_4(ctx):
     """The receive path keeps no state of its own: the only instance state ProtocolHandler.__call__ and
     EZSP.frame_received modify is the pending entry popped under the frame's sequence number, so a malformed or
     unexpected frame cannot affect commands issued afterwards."""
+    from ..su import reachable_names
+
     repo = ctx.repo
-    for q in (f"{PROTO}:ProtocolHandler.__call__", "bellows.ezsp:EZSP.frame_received"):
-        f = repo.func(q)
+    roots = [repo.func(f"{PROTO}:ProtocolHandler.__call__"), repo.func("bellows.ezsp:EZSP.frame_received")]
+    names = reachable_names(repo, roots) - {"_ezsp_frame_rx"}
+    funcs = [g for g in repo.all_functions() if g.name in names and g.cls is not None and (
+        any(b == "ProtocolHandler" for b in g.cls.base_names()) or (g.cls.name == "EZSP" and g.name == "frame_received"))]
+    n_ok = 0
+    for f in funcs:
         ctx.fn(f)
-        n_ok = 0
         for n in ast.walk(f.node):
             tgt = None
             if isinstance(n, ast.Attribute) and isinstance(n.ctx, (ast.Store, ast.Del)) and text(n.value) == "self":
@@ -708,8 +713,7 @@ def r08_4(ctx):
                 tgt = (n.func.attr, text(n.func.value)[5:])
             if tgt is None:
                 continue
-            ok = q.endswith("__call__") and tgt == ("pop", "_awaiting")
-            ctx.require(ok, f"receive-path-write:{tgt[1]}:{tgt[0]}", f"{f.short} modifies self.{tgt[1]} ({tgt[0]}) at line {n.lineno}", func=f, node=n)
+            ok = tgt == ("pop", "_awaiting")
+            ctx.require(ok, f"receive-path-write:{tgt[1]}:{tgt[0]}", f"{f.short} (on the receive path) modifies self.{tgt[1]} ({tgt[0]}) at line {n.lineno}", func=f, node=n)
             n_ok += ok
-        if q.endswith("__call__"):
-            ctx.anchor(n_ok >= 1, "__call__ pops the matched pending entry")
+    ctx.anchor(n_ok >= 1, "the receive path pops the matched pending entry")
